@@ -524,4 +524,9 @@ MUTATIONS += [
     dict(id="q-r14t-membership-in-values-set", quiet=True, file="cirkit/backend/torch/graph/optimize.py", old="                (m for m in matches if m in prioritized_module_matches.values()), None", new="                (m for m in matches if any(m is sel for sel in prioritized_module_matches.values())), None", expect={}),
     dict(id="q-r10m-non-persistent-cache", quiet=True, patch="seeded/C19f/patch.diff", edits=[(TINPUT, '        self.register_buffer("_zero_log_partition", None)', '        self.register_buffer("_zero_log_partition", None, persistent=False)')], expect={}),
     dict(id="q-r3g-slice-under-range-comparison", quiet=True, patch="seeded/C14g/patch.diff", edits=[(FOLD, "        elif cum_fold_i_idx[-1] - cum_fold_i_idx[0] + 1 == len(cum_fold_i_idx):", "        elif cum_fold_i_idx == list(range(cum_fold_i_idx[0], cum_fold_i_idx[-1] + 1)):")], expect={}),
+    dict(id="r6t-registry-keeps-given-dict", file="cirkit/backend/registry.py", old="        self._rules = {} if rules is None else dict(rules)", new="        self._rules = {} if rules is None else rules", expect={"C17": ["R6t:"], "C18": ["R6t:"], "C01": ["R6t:"]}),
+    dict(id="q-r6t-registry-copy-method", quiet=True, file="cirkit/backend/registry.py", old="        self._rules = {} if rules is None else dict(rules)", new="        self._rules = {} if rules is None else rules.copy()", expect={}),
+    dict(id="r14w-from-numpy-as-given", file="cirkit/backend/torch/initializers.py", old="    t = torch.from_numpy(np.ascontiguousarray(array))", new="    t = torch.from_numpy(array)", expect={"C17": ["R14w:cirkit.backend.torch.initializers.copy_from_ndarray_:contiguous"]}),
+    dict(id="q-r14w-from-numpy-copy", quiet=True, file="cirkit/backend/torch/initializers.py", old="    t = torch.from_numpy(np.ascontiguousarray(array))", new="    t = torch.from_numpy(array.copy())", expect={}),
+    dict(id="r14w-default-dtype-detour", file="cirkit/backend/torch/initializers.py", old="    # The values are converted to the data type of the given tensor\n    return tensor.copy_(t)", new="    if t.is_floating_point():\n        t = t.to(torch.get_default_dtype())\n    return tensor.copy_(t)", expect={"C17": ["R14w:cirkit.backend.torch.initializers.copy_from_ndarray_:dtype"]}),
 ]
